@@ -13,12 +13,13 @@ R10 = X in ("M", "N", "O")  # tenth round: E and F again; stored as M and N
 R11 = X in ("P", "Q", "R")  # eleventh round: E and F (and a bonus G) again; stored as P and Q (and R)
 R12 = X in ("S", "T", "U")  # twelfth round: E, F (G) stored as S, T (U)
 R13 = X in ("V", "W", "X")  # thirteenth round: E, F (G) stored as V, W (X)
+R17 = X in ("CA", "CB")  # seventeenth round: one change (E) per property, stored as CA
 R16 = X in ("BA", "BB")  # sixteenth round: E, F stored as BA, BB
 R15 = X in ("AA", "AB", "AC")  # fifteenth round: E, F stored as AA, AB
 R14 = X in ("Y", "Z")  # fourteenth round: E, F stored as Y, Z
 R8 = X in ("I", "J")  # eighth round (after the round-7 hunt): E and F again; stored as I and J
-SRC = {"G": "E", "H": "F", "I": "E", "J": "F", "K": "E", "L": "F", "M": "E", "N": "F", "O": "G", "P": "E", "Q": "F", "R": "G", "S": "E", "T": "F", "U": "G", "V": "E", "W": "F", "X": "G", "Y": "E", "Z": "F", "AA": "E", "AB": "F", "AC": "G", "BA": "E", "BB": "F"}.get(X, X)
-wt = f"/tmp/wt27/{ID}" if R16 else f"/tmp/wt25/{ID}" if R15 else f"/tmp/wt23/{ID}" if R14 else f"/tmp/wt20/{ID}" if R13 else f"/tmp/wt19/{ID}" if R12 else f"/tmp/wt17/{ID}" if R11 else f"/tmp/wt15/{ID}" if R10 else f"/tmp/wt11/{ID}" if R9 else f"/tmp/wt9/{ID}" if R8 else f"/tmp/wt6/{ID}" if R6 else f"/tmp/wt4/{ID}" if R4 else f"/tmp/wt2/{ID}" if R2 else f"/tmp/wt/{ID}"; sd = f"/tmp/seed16_{ID}" if R16 else f"/tmp/seed15_{ID}" if R15 else f"/tmp/seed14_{ID}" if R14 else f"/tmp/seed13_{ID}" if R13 else f"/tmp/seed12_{ID}" if R12 else f"/tmp/seed11_{ID}" if R11 else f"/tmp/seed10_{ID}" if R10 else f"/tmp/seed9_{ID}" if R9 else f"/tmp/seed8_{ID}" if R8 else f"/tmp/seed6_{ID}" if R6 else f"/tmp/seed4_{ID}" if R4 else f"/tmp/seed2_{ID}" if R2 else f"/tmp/seed_{ID}"; patch = f"{sd}/{SRC}.patch"; demo = f"{sd}/demo{SRC}"
+SRC = {"G": "E", "H": "F", "I": "E", "J": "F", "K": "E", "L": "F", "M": "E", "N": "F", "O": "G", "P": "E", "Q": "F", "R": "G", "S": "E", "T": "F", "U": "G", "V": "E", "W": "F", "X": "G", "Y": "E", "Z": "F", "AA": "E", "AB": "F", "AC": "G", "BA": "E", "BB": "F", "CA": "E", "CB": "F"}.get(X, X)
+wt = f"/tmp/wt29/{ID}" if R17 else f"/tmp/wt27/{ID}" if R16 else f"/tmp/wt25/{ID}" if R15 else f"/tmp/wt23/{ID}" if R14 else f"/tmp/wt20/{ID}" if R13 else f"/tmp/wt19/{ID}" if R12 else f"/tmp/wt17/{ID}" if R11 else f"/tmp/wt15/{ID}" if R10 else f"/tmp/wt11/{ID}" if R9 else f"/tmp/wt9/{ID}" if R8 else f"/tmp/wt6/{ID}" if R6 else f"/tmp/wt4/{ID}" if R4 else f"/tmp/wt2/{ID}" if R2 else f"/tmp/wt/{ID}"; sd = f"/tmp/seed17_{ID}" if R17 else f"/tmp/seed16_{ID}" if R16 else f"/tmp/seed15_{ID}" if R15 else f"/tmp/seed14_{ID}" if R14 else f"/tmp/seed13_{ID}" if R13 else f"/tmp/seed12_{ID}" if R12 else f"/tmp/seed11_{ID}" if R11 else f"/tmp/seed10_{ID}" if R10 else f"/tmp/seed9_{ID}" if R9 else f"/tmp/seed8_{ID}" if R8 else f"/tmp/seed6_{ID}" if R6 else f"/tmp/seed4_{ID}" if R4 else f"/tmp/seed2_{ID}" if R2 else f"/tmp/seed_{ID}"; patch = f"{sd}/{SRC}.patch"; demo = f"{sd}/demo{SRC}"
 env = dict(os.environ, GOFLAGS="-mod=mod", GOPROXY="off", GOSUMDB="off", GOTOOLCHAIN="local")
 env.pop("GOWORK", None)
 log = []
